@@ -229,6 +229,11 @@ Section OpWrites.
     destruct (export_arr s 4 false (firstn k (ohs o))) as [s1 e]. cbn [fst] in *.
     pose proof (wr_import s i s1 e W) as W2. destruct (import_arr s1 e) as [s2 o2]. cbn [fst] in *. nowrite. auto.
   Qed.
+  Lemma wr_take i nl : Wr s i (fst (ex_take s i nl)).
+  Proof.
+    unfold ex_take. destruct (get_slot s i) as [o|]; [|auto with c16w]. destruct (_ || _); [|auto with c16w].
+    destruct (ohs o) as [|v [|n [|]]]; auto with c16w; destruct nl; auto with c16w; cbn [fst]; nowrite.
+  Qed.
   Lemma wr_ex_truncate i a : Wr s i (fst (ex_truncate s i a)).
   Proof.
     unfold ex_truncate. destruct (slot_1 s i 2) as [h|] eqn:E; [|auto with c16w].
@@ -333,12 +338,12 @@ End Unary.
 Theorem exec_writes s p : Excl s -> Wr s (o_a p) (fst (exec s p)).
 Proof.
   intros X. unfold exec. destruct p as [cd a b c tid data zb zc]. cbn [o_code o_a o_b o_c o_data o_zb o_zc].
-  do 26 (destruct cd as [|cd];
+  do 28 (destruct cd as [|cd];
     [first [apply wr_new_std | apply wr_new_cust | apply wr_new_mut | apply wr_clone | apply wr_slice | apply wr_drop
            | apply wr_into_mutable | apply wr_freeze | apply wr_into_vec | apply wr_wrap_arr | apply wr_wrap_bits
            | apply wr_wrap_barr | apply wr_unary | apply wr_finish | (apply wr_write; [exact X|reflexivity]) | apply wr_bit_assign
            | apply wr_ex_export | apply wr_ex_import | apply wr_claim | apply wr_stream_new | apply wr_stream_next
-           | (apply wr_ex_truncate; exact X) | (destruct (slot_k s a 2); apply wr_write; [exact X|reflexivity|exact X|reflexivity])]|]).
+           | (apply wr_ex_truncate; exact X) | apply wr_take | (destruct (slot_k s a 2); apply wr_write; [exact X|reflexivity|exact X|reflexivity])]|]).
   apply wr_refl.
 Qed.
 
